@@ -134,8 +134,29 @@ def verus_property(pid, prop, tier, seed, out, work):
     gen = os.path.join(work, "tzrs_verif_%s.rs" % pid)
     open(gen, "w").write(text)
     rlimit = prop.get("rlimit", 100)
-    res = verus_run.run_verus(gen, rlimit=rlimit, fn_spans=[(a, b, n) for (a, b, n, k) in spans],
-                              seed=(seed if tier == "thorough" and seed else None))
+    fspans = [(a, b, n) for (a, b, n, k) in spans]
+    res = verus_run.run_verus(gen, rlimit=rlimit, fn_spans=fspans, seed=(seed if tier == "thorough" and seed else None))
+    # A proof found under any solver seed is a proof.  An obligation that is not discharged is retried with two other
+    # seeds before it is reported, so that solver instability on the unchanged tree cannot become an alarm; a real
+    # violation fails under every seed.  The instability itself is recorded in the evidence.
+    retries = []
+    if not res.compile_error and (res.failures or not res.ok):
+        failing = {f["function"] for f in res.failures}
+        for alt_seed in (7919, 104729):
+            if not failing:
+                break
+            r2 = verus_run.run_verus(gen, rlimit=rlimit, fn_spans=fspans, seed=alt_seed)
+            if r2.compile_error:
+                break
+            still = {f["function"] for f in r2.failures}
+            recovered = sorted(failing - still)
+            retries.append(dict(seed=alt_seed, recovered=recovered, still_failing=sorted(failing & still)))
+            for name in recovered:
+                if name in r2.functions:
+                    res.functions[name] = r2.functions[name]
+            res.failures = [f for f in res.failures if f["function"] in still]
+            failing &= still
+        res.ok = not res.failures
     cov = out.evidence["coverage"]
     cov["checker_cmd"] = res.cmd.replace(work, "$WORK")
     cov["verus"] = res.versions
@@ -189,6 +210,7 @@ def verus_property(pid, prop, tier, seed, out, work):
                              file_sha256={f: h[:16] for f, h in ex.file_sha.items()},
                              not_under_contract=sorted(set(ex.dropped)) + ["datetime/find.rs (whole file)", "parse/* (whole directory)", "utils/system_time.rs", "all Display / Error / From trait impls", "#[cfg(test)] modules"])
     cov["exhaustive"] = False
+    cov["solver_retries"] = retries
     # failures
     fails = res.failures
     real = [f for f in fails if not f["rlimit"]]
@@ -334,6 +356,12 @@ def main():
     try:
         if prop.get("verus", True):
             verus_property(pid, prop, tier, seed, out, work)
+        if prop.get("structural"):
+            import structural
+            ok, facts, problems = getattr(structural, prop["structural"])(REPO)
+            out.evidence["coverage"]["structural_shape"] = dict(check=prop["structural"], facts=facts, problems=problems)
+            for pr in problems:
+                out.undecided.append("shape relied on by the meta-argument changed: " + pr)
         kani_run.run_for_property(REPO, work, pid, prop, tier, seed, out)
         code = report(out, prop, work)
     except extract.Undecided as e:
@@ -343,7 +371,9 @@ def main():
     cov.setdefault("obligations", 0)
     cov.setdefault("discharged", 0)
     cov.setdefault("checker_cmd", "")
-    cov["trusted_base"] = prop.get("trusted_base", []) + ["verus 0.2026.09.13 / z3", "rustc", "extraction rules R1-R7 (tools/extract.py)", "spec library spec/*.rs (definitions)"]
+    cov["trusted_base"] = prop.get("trusted_base", []) + (["verus 0.2026.09.13 / z3", "rustc", "extraction rules R1-R7 (tools/extract.py)", "spec library spec/*.rs (definitions)"] if prop.get("verus", True) else ["rustc"])
+    if cov.get("concrete_cross_validation"):
+        cov["trusted_base"].append("executable oracle replaykit/src/oracle.rs (used only to refute, never to pass)")
     cov["known_findings_reproduced"] = out.known
     cov["undecided"] = out.undecided
     cov["violated_obligations"] = out.violations
